@@ -134,7 +134,15 @@ def case_near(name: str, s: str):
     """the string is offered three times, through the descriptor API and through sid_to_bytes: a rejection must be repeatable"""
     from dpapi_ng._security_descriptor import sid_to_bytes
 
-    for attempt, fn in enumerate((_sd, sid_to_bytes, _sd)):
+    def _via_unpack(x: str) -> bytes:
+        # the string as it arrives inside a blob: the packed protection descriptor decoded by the library, then turned into the SD
+        from dpapi_ng._blob import ProtectionDescriptor
+
+        from ref import cms
+
+        return ProtectionDescriptor.unpack(cms.protection_descriptor(cms.OID_SID, "SID", x)).get_target_sd()
+
+    for attempt, fn in enumerate((_sd, sid_to_bytes, _sd, _via_unpack)):
         try:
             sd = fn(s)
         except ValueError:
